@@ -327,7 +327,7 @@ def check(rep: Report, tier: str, seed: int) -> None:
         rep.broke(f"{variant['asFound']} device-noise case(s) behave like the tree before the D22 fix (run() does not "
                   "check the noise model in effect): Props/C33.dmrg_device_noise_counterexample applies")
     rep.extra["correspondence_disagreements"] = dis
-    if rep.broken and not rep.failing:
+    if rep.broken and not rep.unknown_failing():
         search(rep, seed, 4000 if quick else 60000)
 
 
@@ -347,7 +347,7 @@ def search(rep: Report, seed: int, n: int) -> None:
             return
     lines, sink = [], []
     check_impl(rep, gen_impl_specs(rng, n // 10), lines, sink)
-    if not rep.failing:
+    if not rep.unknown_failing():
         check_pipeline(rep, rng, n // 40, lines, sink)
     rep.extra["search_cases"] = n
 
